@@ -154,6 +154,73 @@ theorem step_holds (cfg : Cfg) (pre : PinMap) (op : Op) (chosen : List Nat)
       simp only [List.all_cons, List.all_nil, Bool.and_true]
       exact rpcPin_effect cfg pre p chosen hwf hne
 
+/-- requests (incl. the rpc pin entry) carry metadata as a map -/
+def wfOpFull : Op → Bool
+  | .rpcPin p => decide (p.opts.metadata.map (·.1)).Nodup
+  | op => wfOp op
+
+/-- The pinset stays well-formed (one entry per CID, entries in stored form) under every call. -/
+theorem step_wfState (cfg : Cfg) (pre : PinMap) (op : Op) (chosen : List Nat)
+    (hpre : pre.wfState = true) (hop : wfOpFull op = true) : (step cfg pre op chosen).post.wfState = true := by
+  have hall : ∀ e ∈ pre, metaOk e := by
+    intro e he
+    have := ((wfState_iff pre).1 hpre).2 e he
+    exact ((wfStored_iff e).1 this).2
+  have userOk : ∀ (c : Nat) (o : Opts), (o.metadata.map (·.1)).Nodup → metaOk (pinWithOpts c o) := fun _ _ h => h
+  cases op with
+  | pin c o =>
+    exact wfState_of_mshape hpre (mshape_pinOp cfg pre _ [] chosen hall (userOk c o (by simpa [wfOpFull, wfOp] using hop)))
+  | pinPath path o =>
+    show (match lookup cfg.paths path with
+      | some c => pinOp cfg pre (pinWithOpts c o) [] chosen
+      | none => err pre).post.wfState = true
+    split
+    · exact wfState_of_mshape hpre (mshape_pinOp cfg pre _ [] chosen hall (userOk _ o (by simpa [wfOpFull, wfOp] using hop)))
+    · exact hpre
+  | update s d o => exact wfState_of_mshape hpre (mshape_pinUpdate cfg pre s d o hall)
+  | unpin c => exact wfState_unpinOp cfg pre c hpre
+  | unpinPath path =>
+    show (match lookup cfg.paths path with
+      | some c => unpinOp cfg pre c
+      | none => err pre).post.wfState = true
+    split
+    · exact wfState_unpinOp cfg pre _ hpre
+    · exact hpre
+  | rpcPin p =>
+    exact wfState_of_mshape hpre (mshape_pinOp cfg pre p [] chosen hall (by simpa [wfOpFull, metaOk] using hop))
+
+/-- History form of C04: along ANY sequence of calls from the empty pinset, with any admissible
+    allocation at each call, every call's outcome satisfies every clause of the property. -/
+theorem run_holds (cfg : Cfg) (hcfg : wfCfg cfg = true) (ops : List (Op × List Nat)) :
+    ∀ (pre : PinMap), pre.wfState = true →
+      (∀ oc ∈ ops, wfOpFull oc.1 = true ∧ wfOp oc.1 = true) →
+      -- admissible choices: whenever the model consults allocate(), the chosen list is in the C03 relation
+      (∀ (m : PinMap) (oc : Op × List Nat), oc ∈ ops → ∀ ai, (step cfg m oc.1 oc.2).alloc = some ai →
+          C03.allowed ai (.ok oc.2) = true) →
+      let states := ops.scanl (fun m oc => (step cfg m oc.1 oc.2).post) pre
+      ∀ k (hk : k < ops.length),
+        holds cfg (states.getD k []) (ops[k]).1 (step cfg (states.getD k []) (ops[k]).1 (ops[k]).2).res
+          (step cfg (states.getD k []) (ops[k]).1 (ops[k]).2).post = true := by
+  induction ops with
+  | nil => intro pre _ _ _ _ k hk; exact absurd hk (by simp)
+  | cons oc t ih =>
+    intro pre hpre hops hadm states k hk
+    cases k with
+    | zero =>
+      have h0 : states.getD 0 [] = pre := by simp [states, List.scanl_cons]
+      simp only [List.getElem_cons_zero, h0]
+      exact step_holds cfg pre oc.1 oc.2 hpre hcfg (hops oc (by simp)).2
+        (fun ai hai => hadm pre oc (by simp) ai hai)
+    | succ k' =>
+      have hnext := step_wfState cfg pre oc.1 oc.2 hpre (hops oc (by simp)).1
+      have := ih _ hnext (fun o ho => hops o (List.mem_cons_of_mem _ ho))
+        (fun m o ho => hadm m o (List.mem_cons_of_mem _ ho)) k' (by simpa using hk)
+      have hs : states.getD (k' + 1) [] =
+          (t.scanl (fun m oc => (step cfg m oc.1 oc.2).post) (step cfg pre oc.1 oc.2).post).getD k' [] := by
+        simp [states, List.scanl_cons]
+      simp only [List.getElem_cons_succ, hs]
+      exact this
+
 /-- One entry per CID is preserved by every call (any result, any allocation). -/
 theorem step_wf (cfg : Cfg) (pre : PinMap) (op : Op) (chosen : List Nat) (hw : pre.wf = true) :
     (step cfg pre op chosen).post.wf = true :=
